@@ -91,6 +91,8 @@ fn gen_arg(op: &OpDesc, i: usize, rng: &mut Rng, cls: Cls) -> Val {
         Ty::S(Elem::Usize) => {
             if op.fname == "fmt_sink" {
                 Val::Usize(usize::MAX)
+            } else if op.fname == "fmt_spec" {
+                Val::Usize(rng.below(crate::ops::N_FMT_SPECS))
             } else if doc {
                 Val::Usize(rng.below(idx_limit))
             } else {
@@ -253,6 +255,26 @@ fn sweep_op(oi: usize, seed: u64, samples: usize) -> OpResult {
     let mut seen: HashSet<u64> = HashSet::new();
     if op.fname == "fmt_sink" {
         sink_op(oi, seed, &mut res);
+        return res;
+    }
+    if op.fname == "fmt_spec" {
+        // the Formatter's state is an argument too: every spec of the grid x a few values
+        for k in 0..crate::ops::N_FMT_SPECS {
+            for vi in 0..6usize {
+                let mut rng = Rng::new(seed, "c18p-spec", (oi as u64) << 16 | (k as u64) << 4 | vi as u64);
+                let cls = match vi { 0 => Cls::Ordinary, 1 => Cls::Lattice(15), 2 => Cls::Lattice(1), 3 => Cls::Lattice(13), _ => Cls::Mix };
+                let args = vec![gen_val(&op.args[0], &mut rng, cls, 4), Val::Usize(k)];
+                res.evals += 1;
+                res.distinct += 1;
+                if let Err(p) = call(op, &args) {
+                    if res.viol.is_none() {
+                        let class = format!("panic:{}", op.name);
+                        let detail = format!("panicked: {} at {} with {} (format spec #{k} of the grid in apigen.py FMT_SPECS)", p.msg, p.loc, render_args(op, &args));
+                        res.viol = Some(Violation { class: class.clone(), detail: detail.clone(), replay: replay_json(op, &args, seed, &class, &detail) });
+                    }
+                }
+            }
+        }
         return res;
     }
     let cases = cases_of(op, samples);
